@@ -127,7 +127,7 @@ var props = map[string]*propConfig{
 	"C04": {
 		Harness: "h1", Level: "exploration",
 		Families: []family{
-			{Name: "kills", Flags: map[string]string{"family": "kills"}, Quick: 12000, Thorough: 3200000},
+			{Name: "kills", Flags: map[string]string{"family": "kills"}, Quick: 24000, Thorough: 3200000},
 		},
 		QuickBudget: 90 * time.Second, ThoroughBudget: 25 * time.Minute, Chunk: 50,
 		Rule: "one run = 2..4 simulated processes (independent counter.file objects and mappings of one shared file, 1..2 threads each) incrementing names drawn from a pool with same-name, same-bucket (colliding), page-crossing and page-end-sized names, scheduled at single-atomic-operation granularity, with 0..3 kills placed at a random step or right after the victim's k-th limit CAS / head CAS / record write / extension write / mmap; the file is strictly decoded by an independent decoder after every step; distinct = distinct event-log hash; non-trivial = at least one context switch between live tasks or a kill",
